@@ -14,7 +14,7 @@ from ._helpers_rules_c import (
 )
 from ._helpers_rob_a import normal_form, transitive_owners
 from .c24 import finalize_fairy_reset
-from .c25 import overflow_pairing
+from .c25 import every_exit_hands_back, overflow_pairing
 
 R = Registry(
     "C26",
@@ -28,7 +28,10 @@ R = Registry(
         "right order; overflow counter and reset-failure pairing (shared with C25-R2, C24-R1); "
         "Pool._invalidate_time has a single writer; the record's generation stamp (starttime) is taken "
         "before the creator is invoked, never re-taken afterwards, has two writers and shares its clock with "
-        "the invalidation timestamps (C26-R7).  Logging calls are assumed not to raise."
+        "the invalidation timestamps (C26-R7); no function of pool/base.py that is on its way to hand a record back can be "
+        "left by an exception (a failing / cancelled DBAPI call, dialect call, event listener or stored callback) without "
+        "handing it back: once every holder has released, the pool reports zero checked out (C26-R8 = C25-R7).  Logging "
+        "calls are assumed not to raise."
     ),
     not_decided=(
         "the ledger of open/closed DBAPI connections over arbitrary fault histories; exceptions raised by "
@@ -347,6 +350,15 @@ def r4(ctx):
 def r5(ctx):
     overflow_pairing(ctx)
     finalize_fairy_reset(ctx)
+
+
+@R.rule("C26-R8", floor=8, template="T-PATH",
+        desc="= C25-R7: every exceptional exit of a function of pool/base.py that holds a record (given to it, or taken with "
+             "_do_get()) and hands it back on its way (checkin, _checkin_failed, checkout, _finalize_fairy, "
+             "_ConnectionFairy._checkout / detach / close / invalidate, Pool._return_conn) passes a hand-back of that record; "
+             "faults = any BaseException out of a DBAPI / dialect call, an event listener or a stored callback")
+def r8(ctx):
+    every_exit_hands_back(ctx)
 
 
 INVALIDATE_TIME_WRITERS = {
@@ -743,3 +755,31 @@ R.mutant("checkout-reconnects-before-pool-invalidate", POOL,
          chain(sub(_DISC, "                    fairy._connection_record.invalidate(e)\n"
                           "                    fairy.dbapi_connection = fairy._connection_record.get_connection()\n"
                           "                    pool._invalidate(fairy, e, _checkin=False)\n")), "C26-R7")
+
+# ---------------------------------------------------------------------- C26-R8 (= C25-R7: no slot is lost on an exceptional exit)
+# The rule body and its full battery live in c25.py (`every_exit_hands_back`, AFTER_FIX for the inputs that need the fixed
+# shape of checkin / _finalize_fairy: both keys fire on today's tree).  Here: fault-path inputs that apply today.
+R.mutant("r8-fairy-checkout-exhausted-only-soft-invalidates", POOL,
+         sub("        fairy.invalidate()\n        raise exc.InvalidRequestError", "        fairy.invalidate(soft=True)\n        raise exc.InvalidRequestError"),
+         "C26-R8")
+R.mutant("r8-checkin-failed-terminates-by-hand-before-checkin", POOL,
+         sub("        self.invalidate(e=err)\n        self.checkin(\n",
+             "        if self.dbapi_connection is not None:\n            self.__pool._dialect.do_terminate(self.dbapi_connection)\n"
+             "            self.dbapi_connection = None\n        self.checkin(\n"), "C26-R8")
+R.mutant("r8-detach-event-dispatched-before-the-record-is-returned", POOL,
+         sub("            rec.dbapi_connection = None\n            # TODO: should this be _return_conn?\n",
+             "            rec.dbapi_connection = None\n            if self._pool.dispatch.detach:\n"
+             "                self._pool.dispatch.detach(self.dbapi_connection, rec)\n            # TODO: should this be _return_conn?\n"),
+         "C26-R8")
+R.mutant("r8-fairy-checkout-reconnect-handler-narrowed-to-exception", POOL,
+         sub("                except BaseException as err:\n                    with util.safe_reraise():\n"
+             "                        fairy._connection_record._checkin_failed(",
+             "                except Exception as err:\n                    with util.safe_reraise():\n"
+             "                        fairy._connection_record._checkin_failed("), "C26-R8")
+R.mutant("benign-r8-fairy-checkout-exhausted-hard-invalidate-by-keyword", POOL,
+         sub("        fairy.invalidate()\n        raise exc.InvalidRequestError", "        fairy.invalidate(soft=False)\n        raise exc.InvalidRequestError"), None)
+R.mutant("benign-r8-checkin-failed-logs-first", POOL,
+         sub("        self.invalidate(e=err)\n        self.checkin(\n",
+             "        self.__pool.logger.debug(\"checkin after failure: %r\", err)\n        self.invalidate(e=err)\n        self.checkin(\n"), None)
+R.mutant("benign-r8-detach-pool-alias-and-local-record", POOL,
+         sub("            self._pool._do_return_conn(self._connection_record)\n", "            pool = self._pool\n            pool._do_return_conn(rec)\n"), None)
